@@ -70,6 +70,15 @@ CLAIMED = {
             "history length and symbolic text, against the definitions in the specifier help. Dotted revno maps, "
             "merge-sorted numbering (compiled) and the revid:/tag:/ancestor:/mainline:/date: specifiers are outside.",
             "branch is a stub with a symbolic number of mainline revisions"),
+    "C23": ("bound-branch commit kernel (first sentence of C23)",
+            "The real Commit._check_bound_branch, _check_out_of_date_tree and _update_branches, called in commit()'s order over "
+            "stub branches with SYMBOLIC revision ids and revision numbers: a bound non-local commit is refused "
+            "(BoundBranchOutOfDate / OutOfDateTree / CommitToDoubleBoundBranch) without changing either branch when the "
+            "master moved or the tree is stale, otherwise the master is write-locked and updated first, the local branch "
+            "second, to the same tip and old revno + 1; a --local commit never touches the master. Update and pull in a "
+            "checkout, the commit builder and the tree walk are outside.",
+            "branches, tree, builder, config are recording stubs; the three methods are composed by the harness in the order "
+            "commit() uses"),
     "C24": ("tag reconciliation kernel",
             "Decides the reconciliation sentence for the real _reconcile_tags with symbolic tag names and revision ids "
             "(<= 2/3 tags per dictionary), overwrite on/off, arbitrary selector. Persistence of tag dictionaries (bencode, "
@@ -192,7 +201,6 @@ NOT_APPLICABLE = {
     "C19": "the decision goes through merge3.Merge3 with patiencediff.PatienceSequenceMatcher (compiled, hashes lines), so file lines cannot be symbolic",
     "C20": "persistence is rio.Stanza (Rust) on a real tree; selection is hash-set membership over concrete paths plus osutils.is_inside_any (Rust)",
     "C22": "dotted revnos come from vcsgraph merge-sort (compiled) over DAG structure; specifier resolution needs a real branch",
-    "C23": "two real branches, the commit pipeline and locks; histories are structure",
     "C32": "end-to-end equivalence of real repositories/branches over an in-process server; operation sequences and histories are structure (the wire codec itself is decided under C29/C30)",
     "C35": "tree/blob conversion over real repositories through dulwich object stores and the SHA-map cache",
     "C38": "differential behaviour of SQLite / TDB / index-file stores - storage engines and I/O",
